@@ -2,7 +2,7 @@
 From Coq Require Import String List Bool Arith.
 From KV Require Import Lib.Str Lib.TableDef Model.TTable Model.PyShape Spec.TableInterp Gen.PyTmpl Model.PySM
                        Proofs.PySMGen Proofs.PySMSem Model.PySyncIR Gen.PySync Model.PyTrigger Proofs.PyTriggerProofs
-                       Model.Engine Model.EngineSM Model.EngineDomain Model.EngineDomain16 Spec.RefExpand16 Model.PyRender Proofs.PyBridge.
+                       Model.Engine Model.EngineSM Model.EngineDomain Model.EngineDomain16 Spec.RefExpand16 Model.Parse16 Model.PyRender Proofs.PyBridge.
 Import KV.Model.PyShape KV.Model.PySM.
 Import ListNotations.
 Open Scope string_scope.
@@ -60,6 +60,35 @@ Print Assumptions C08_init_reads.
 Example C08_init_is_shipped : py_init16_opt = Some py_init16 /\ List.length py_init16 = 3.
 Proof. split; vm_compute; reflexivity. Qed.
 Print Assumptions C08_init_is_shipped.
+
+(* THE WHOLE FILE.  The shipped TEMPLATEStateMachine.py as a whole lies in the template grammar of C16: text, the <<<TTT_BOOST_SML>>> line, per-state
+   blocks, the user-tag line, the <<<STATE_0>>> lines, the per-event block of the Trigger methods with <<<SIGNATURE>>>, the two transition blocks.
+   The signature strings (smgen.get_event_signature = LanguagePython.ParameterString(GetFactoryCreateParams(...)), without / with defaults) are an
+   INTERFACE ORACLE: a parameter [sigs] of the model and of the theorem (event name -> the two strings), supplied per case by the harness from the
+   real Language objects; the tag logic and the paren-cleanup regex around them are modelled and proved (Props/C16.v: C16_ev_block_is_ref).
+   For every table, interface, oracle and assignment of user tags admitted for the file (py_file_wf, computed per case): what smgen.Generate's
+   pipeline writes from the WHOLE file is Lpre ++ L, where L (the expansion of the file's last eight items) reads line by line as the process part of
+   gen_py and the items 34 / 40 / 41 (def __init__ and the two <<<STATE_0>>> lines) expand to lines reading as its constructor part; gen_py parses
+   and executes the table.  That the real engine produces the process region inside the whole real file is no longer only observed. *)
+Theorem C08_sem_engine_whole : forall (tt : list EngineSM.row) (structs protos msgs : list string) (m : smodel)
+                                      (sigs : list (string * (string * string))) (a : Engine.usertags),
+  tt_model tt structs protos msgs = Some m -> py_file_wf tt structs protos msgs sigs a = true -> wf_table (table_of tt) = true -> forall evs gv,
+  exists Lpre L L0 prog,
+    EngineSM.generate_file (with_sigs sigs m) Parse16.dict0 a py_file = Some (concat_lines (map tab4 (Lpre ++ L)))
+    /\ reads_all "X" L (gen_proc (table_of tt)) = true
+    /\ L0 = flat_map (ref_item16 (py_elements tt structs protos msgs sigs a))
+                     (flat_map (fun k => match nth_error py_file16 k with Some it => [it] | None => [] end) [34; 40; 41])
+    /\ reads_all "X" L0 (gen_init (table_of tt)) = true
+    /\ gen_py (table_of tt) = (gen_init (table_of tt) ++ gen_proc (table_of tt))%list
+    /\ parse_indent (gen_py (table_of tt)) = Some prog
+    /\ run_py prog evs gv = Some (table_interp (table_of tt) evs gv).
+Proof. exact py_sem_engine_whole. Qed.
+Print Assumptions C08_sem_engine_whole.
+
+Example C08_whole_file_is_shipped :
+  py_file16_opt = Some py_file16 /\ skipn 79 py_file16 = py_proc16 /\ map (nth_error py_file16) [34; 40; 41] = map Some py_init16 /\ List.length py_file16 = 87.
+Proof. split; [|split; [|split]]; vm_compute; reflexivity. Qed.
+Print Assumptions C08_whole_file_is_shipped.
 
 (* the reading alone, at the level of the reference expansion: every table (well-formed or not), every interface *)
 Theorem C08_ref_reads : forall (t : table) structs protos msgs,
